@@ -20,6 +20,10 @@ def shards(tier):
     for geo in geosA:
         for op in ("add", "remove"):
             out.append(dict(part="A", geo=geo, op=op, shapes=["list", "list-scalar", "scalar-id"], k=2 if tier == "quick" else 3, vlo=None))
+    # state built by the public constructor from integer-valued initial volumes (list of ints / int scalar): stored volumes stay exact
+    for geo in ["p2x2", "t3x2"]:
+        for op in ("add", "remove"):
+            out.append(dict(part="A", geo=geo, op=op, shapes=["list", "scalar-id"], k=1 if tier == "quick" else 2, vlo=None, ctor="ints"))
     for geo in ["p1x2", "t2x1"]:
         for op in ("add", "remove"):
             for sel in ("limit", "state", "post", "exc"):   # one shard per claim family: the bit-precise queries run in parallel
@@ -56,7 +60,19 @@ def witnesses(tier):
 
 def scenario(ctx, p):
     if p["part"] in ("A", "B"):
-        lab, g, pre = common.make_labware(ctx, "L", p["geo"], filled=False)
+        if p.get("ctor") == "ints":
+            ns = common.rt()
+            kind, R, C = common.GEO[p["geo"]]
+            vmin, vmax = ctx.real("L_min", 0), ctx.real("L_max", None, common.BIG)
+            ctx.assume(vmax > vmin)
+            ctx.assume(vmax >= 20)
+            if kind == "plate":
+                lab = ns.Labware("L", R, C, min_volume=vmin, max_volume=vmax, initial_volumes=[[10] * C for _ in range(R)])
+            else:
+                lab = ns.Trough("L", R, C, min_volume=vmin, max_volume=vmax, initial_volumes=20)
+            pre = {("L", w): (10 if kind == "plate" else 20) for w in common.real_wells(lab)}
+        else:
+            lab, g, pre = common.make_labware(ctx, "L", p["geo"], filled=False)
         if ctx.mode == "fp":
             ctx.assume(ctx.finite(lab.max_volume))
         wells, vols, pairs, shape = lwops.build_args(ctx, lab, p)
